@@ -396,6 +396,18 @@ def bounded_paths(tier, seed):
     out = df_timeshift(df, 10.0, 0.25, columns=["a"])
     if not np.allclose(out["a_shifted"].to_numpy(), timeshift(df["a"].to_numpy(), 2.5)) or not out["b"].equals(df["b"]) or "b_shifted" in out:
         fails.append({"label": "C16.df_wrapper", "input": {}, "detail": "df_timeshift does not apply seconds*fs samples to the selected column only"})
+    # integer / float columns, in place and with suffix: the column becomes timeshift(column, seconds*fs) (no truncation)
+    for inplace in (False, True):
+        dfi = pd.DataFrame({"t": np.arange(200, dtype=float), "counts": 3 * np.arange(200) + 7, "other": np.arange(200)})
+        ref = {c: timeshift(dfi[c].to_numpy().astype(float), 1.5) for c in ("t", "counts")}
+        n += 1
+        o2 = df_timeshift(dfi.copy(), 4.0, 0.375, columns=["t", "counts"], inplace=inplace)
+        for c in ("t", "counts"):
+            got = o2[c if inplace else c + "_shifted"].to_numpy().astype(float)
+            if len(got) == len(ref[c]) and np.max(np.abs(got - ref[c])[40:160]) > 1e-9:
+                fails.append({"label": "C16.df_wrapper", "input": {"column": c, "dtype": str(dfi[c].dtype), "inplace": inplace}, "detail": "column differs from timeshift(column, seconds*fs)"})
+        if not o2["other"].equals(dfi["other"]):
+            fails.append({"label": "C16.df_wrapper", "input": {"inplace": inplace}, "detail": "an unselected column was changed"})
     return {"evaluations": n, "bound": f"orders {orders[:3]}..{orders[-1]}, 6 shifts each, degrees <= 6", "failures": fails[:5], "n_failures": len(fails)}
 
 
